@@ -13,6 +13,7 @@ import Sekai.Driver.Auth
 import Sekai.Driver.Ident
 import Sekai.Driver.Ante
 import Sekai.Driver.MultiStake
+import Sekai.Driver.GenesisCov
 /-! `sekai-model`: the model side of the correspondence check. One op per input line
 (`<domain> <op> <args…>`), one canonical observation per output line. Core Lean only. -/
 open Sekai
@@ -49,6 +50,7 @@ def dispatch (w : World) (line : String) : World × String :=
   | "ident" :: rest => let (s, o) := Driver.Ident.step w.ident rest; ({ w with ident := s }, o)
   | "ante" :: rest => let (s, o) := Driver.Ante.step w.ante rest; ({ w with ante := s }, o)
   | "ms" :: rest => let (s, o) := Driver.MultiStake.step w.ms rest; ({ w with ms := s }, o)
+  | "gencov" :: rest => (w, Driver.GenesisCov.step rest)
   | ["reset"] => ({}, "ok")
   | [] => (w, "")
   | _ => (w, "bad-op")
